@@ -71,6 +71,21 @@ func (t *PipelineTransport) VerifSnapshot() (closed bool, conns []VerifConnState
 	return closed, conns
 }
 
+// VerifBusy returns how many tracked connections currently carry a query
+// (waiting for its reply), idle or not.
+func (t *ReuseConnTransport) VerifBusy() (busy int) {
+	t.m.Lock()
+	defer t.m.Unlock()
+	for c := range t.conns {
+		c.m.Lock()
+		if c.waitingResp != nil {
+			busy++
+		}
+		c.m.Unlock()
+	}
+	return busy
+}
+
 // VerifSnapshot returns the number of tracked and idle connections and whether
 // the idle set is a subset of the tracked set.
 func (t *ReuseConnTransport) VerifSnapshot() (closed bool, conns, idle int, idleSubset bool, idleBusy int) {
